@@ -99,6 +99,7 @@ func Parts() []mc.Part {
 		KernelPart(),
 		mc.ExplorePart("erc20", New(Variant{Name: "erc20", Ratio: "1"}), 6, 8, false, rule),
 		mc.ExplorePart("feeswap-ratio-1", New(Variant{Name: "feeswap-ratio-1", FeeSwap: true, Ratio: "1"}), 4, 5, false, rule),
+		mc.ExplorePart("feeswap-late-issue", New(Variant{Name: "feeswap-late-issue", FeeSwap: true, Ratio: "1", LateIssue: true}), 4, 5, false, rule),
 		mc.ExplorePart("feeswap-ratio-0.5", New(Variant{Name: "feeswap-ratio-0.5", FeeSwap: true, Ratio: "0.5"}), 4, 5, false, rule),
 		mc.ExplorePart("feeswap-ratio-third", New(Variant{Name: "feeswap-ratio-third", FeeSwap: true, Ratio: "0.333333333333333333"}), 4, 5, false, rule),
 	}
